@@ -508,7 +508,9 @@ impl ClusterActor {
 
             'iter: while let Some(commits) = match iter
                 .next_batch(
+                    // The end sequence is inclusive
                     (effective_end_sequence.saturating_sub(last_read_sequence) as usize)
+                        .saturating_add(1)
                         .min(DEFAULT_BATCH_SIZE),
                 )
                 .await
